@@ -214,4 +214,152 @@ example : parse [45, 49, 46, 53, 48] = some ⟨true, 150, 2⟩ :=
   parse_short_frac [cMinus] true [49] [53, 48] (Or.inr (Or.inr ⟨rfl, rfl⟩)) (by decide) (by decide)
     (by decide) (by decide) (by decide)
 
+/-! ## … and conversely: what the u64 path accepts has the numeral shape -/
+
+theorem parseSmall_ok_shape (s : Str) (coef prec c p : Nat) (h : parseSmall s coef prec = .ok c p) :
+    (prec ≠ 0 → AllDigits s) ∧
+    (prec = 0 → AllDigits s ∨ ∃ ds fs, s = ds ++ cDot :: fs ∧ AllDigits ds ∧ AllDigits fs ∧ fs ≠ [] ∧
+      fs.length ≤ 19) := by
+  induction s generalizing coef prec with
+  | nil =>
+    have hnil : AllDigits ([] : Str) := fun x hx => absurd hx (List.not_mem_nil)
+    exact ⟨fun _ => hnil, fun _ => Or.inl hnil⟩
+  | cons a t ih =>
+    rw [parseSmall] at h
+    split at h
+    · next hdot =>
+      split at h
+      · cases h
+      · next hp =>
+        have hp0 : prec = 0 := by simpa using hp
+        split at h
+        · cases h
+        · next hl0 =>
+          split at h
+          · cases h
+          · next hl19 =>
+            have := (ih coef t.length h).1 hl0
+            refine ⟨fun hne => absurd hp0 hne, fun _ => Or.inr ⟨[], t, by simp [hdot], ?_, this, ?_, ?_⟩⟩
+            · exact fun x hx => absurd hx (List.not_mem_nil)
+            · intro ht; subst ht; simp at hl0
+            · unfold defaultPrec at hl19; omega
+    · next hdot =>
+      split at h
+      · cases h
+      · next hdig =>
+        have hd : isDigit a = true := by simpa using hdig
+        have ⟨i1, i2⟩ := ih _ prec h
+        constructor
+        · intro hne x hx
+          rcases List.mem_cons.mp hx with rfl | hx
+          · exact hd
+          · exact i1 hne x hx
+        · intro h0
+          rcases i2 h0 with hall | ⟨ds, fs, rfl, h1, h2, h3, h4⟩
+          · left; intro x hx
+            rcases List.mem_cons.mp hx with rfl | hx
+            · exact hd
+            · exact hall x hx
+          · right
+            refine ⟨a :: ds, fs, rfl, ?_, h2, h3, h4⟩
+            intro x hx
+            rcases List.mem_cons.mp hx with rfl | hx
+            · exact hd
+            · exact h1 x hx
+
+theorem parseSmall_ne_overflow (s : Str) (coef prec : Nat) : parseSmall s coef prec ≠ .overflow := by
+  induction s generalizing coef prec with
+  | nil => rw [parseSmall]; split <;> simp
+  | cons a t ih =>
+    rw [parseSmall]
+    repeat' split
+    all_goals first | exact ih _ _ | simp
+
+/-- the shape of a numeral: sign, digits, optionally a dot and 1–19 digits -/
+def NumeralShape (s : Str) : Prop :=
+  ∃ sign neg ds fs, SignOf sign neg ∧ AllDigits ds ∧ ds ≠ [] ∧ AllDigits fs ∧ fs.length ≤ 19 ∧
+    ((fs = [] ∧ s = sign ++ ds) ∨ (fs ≠ [] ∧ s = sign ++ (ds ++ cDot :: fs)))
+
+/-- shape of the part after the sign, from what `parseSmall` accepted -/
+theorem body_shape (rest : Str) (d0 : UInt8) (r : Str) (c p : Nat) (hr : rest = d0 :: r) (hd : d0 ≠ cDot)
+    (h : parseSmall rest 0 0 = .ok c p) :
+    ∃ ds fs, AllDigits ds ∧ ds ≠ [] ∧ AllDigits fs ∧ fs.length ≤ 19 ∧
+      ((fs = [] ∧ rest = ds) ∨ (fs ≠ [] ∧ rest = ds ++ cDot :: fs)) := by
+  rcases (parseSmall_ok_shape rest 0 0 c p h).2 rfl with hall | ⟨ds, fs, hs, h1, h2, h3, h4⟩
+  · exact ⟨rest, [], hall, by simp [hr], fun x hx => absurd hx List.not_mem_nil, by simp, Or.inl ⟨rfl, rfl⟩⟩
+  · refine ⟨ds, fs, h1, ?_, h2, h4, Or.inr ⟨h3, hs⟩⟩
+    intro hds; subst hds
+    rw [hr] at hs; simp at hs; exact hd hs.1
+
+/-- **rejected shapes (u64 path)**: a string of at most 19 bytes that `Parse` accepts has the
+numeral shape — no exponent, no second sign, no leading/trailing dot, ASCII digits only. -/
+theorem parse_short_sound (s : Str) (d : Dec) (hl : s.length ≤ 19) (h : parse s = some d) :
+    NumeralShape s := by
+  unfold parse at h
+  simp only at h
+  split at h
+  · cases h
+  split at h
+  · cases h
+  rw [if_pos (by omega)] at h
+  cases s with
+  | nil => simp at *
+  | cons c t =>
+    have hlt : t.length ≤ 19 := by simp at hl; omega
+    by_cases hdot : c = cDot
+    · simp [parseU128, hdot] at h
+    by_cases hm : c = cMinus
+    · subst hm
+      cases t with
+      | nil => simp (config := {decide := true}) [parseU128] at h
+      | cons d0 r =>
+        by_cases hd : d0 = cDot
+        · simp (config := {decide := true}) [parseU128, hd] at h
+        · have hu : parseU128 (cMinus :: d0 :: r) = (true, parseSmall (d0 :: r) 0 0) := by
+            simp (config := {decide := true}) [parseU128, hd, maxDigitU64]; intro hbig; simp at hlt; omega
+          rw [hu] at h
+          cases hp : parseSmall (d0 :: r) 0 0 with
+          | ok c p =>
+            obtain ⟨ds, fs, h1, h2, h3, h4, h5⟩ := body_shape (d0 :: r) d0 r c p rfl hd hp
+            refine ⟨[cMinus], true, ds, fs, Or.inr (Or.inr ⟨rfl, rfl⟩), h1, h2, h3, h4, ?_⟩
+            rcases h5 with ⟨a, b⟩ | ⟨a, b⟩
+            · left; exact ⟨a, by rw [b]; rfl⟩
+            · right; exact ⟨a, by rw [b]; rfl⟩
+          | invalid => rw [hp] at h; simp at h
+          | precOut => rw [hp] at h; simp at h
+          | overflow => exact absurd hp (parseSmall_ne_overflow _ _ _)
+    by_cases hp' : c = cPlus
+    · subst hp'
+      cases t with
+      | nil => simp (config := {decide := true}) [parseU128] at h
+      | cons d0 r =>
+        by_cases hd : d0 = cDot
+        · simp (config := {decide := true}) [parseU128, hd] at h
+        · have hu : parseU128 (cPlus :: d0 :: r) = (false, parseSmall (d0 :: r) 0 0) := by
+            simp (config := {decide := true}) [parseU128, hd, maxDigitU64]; intro hbig; simp at hlt; omega
+          rw [hu] at h
+          cases hp : parseSmall (d0 :: r) 0 0 with
+          | ok c p =>
+            obtain ⟨ds, fs, h1, h2, h3, h4, h5⟩ := body_shape (d0 :: r) d0 r c p rfl hd hp
+            refine ⟨[cPlus], false, ds, fs, Or.inr (Or.inl ⟨rfl, rfl⟩), h1, h2, h3, h4, ?_⟩
+            rcases h5 with ⟨a, b⟩ | ⟨a, b⟩
+            · left; exact ⟨a, by rw [b]; rfl⟩
+            · right; exact ⟨a, by rw [b]; rfl⟩
+          | invalid => rw [hp] at h; simp at h
+          | precOut => rw [hp] at h; simp at h
+          | overflow => exact absurd hp (parseSmall_ne_overflow _ _ _)
+    · have hu : parseU128 (c :: t) = (false, parseSmall (c :: t) 0 0) := by
+        simp [parseU128, hdot, hm, hp', maxDigitU64]; intro hbig; simp at hl; omega
+      rw [hu] at h
+      cases hp : parseSmall (c :: t) 0 0 with
+      | ok c' p =>
+        obtain ⟨ds, fs, h1, h2, h3, h4, h5⟩ := body_shape (c :: t) c t c' p rfl hdot hp
+        refine ⟨[], false, ds, fs, Or.inl ⟨rfl, rfl⟩, h1, h2, h3, h4, ?_⟩
+        rcases h5 with ⟨a, b⟩ | ⟨a, b⟩
+        · left; exact ⟨a, by rw [b]; rfl⟩
+        · right; exact ⟨a, by rw [b]; rfl⟩
+      | invalid => rw [hp] at h; simp at h
+      | precOut => rw [hp] at h; simp at h
+      | overflow => exact absurd hp (parseSmall_ne_overflow _ _ _)
+
 end CentrifugeVerif.Decimal
